@@ -57,6 +57,21 @@ CLAIMED["C19"] = (
     "DESIGN.md §3 C19",
     "std::fmt machinery is trusted to propagate Err from write_str; host-supplied formatters/objects are assumed to propagate.")
 
+CLAIMED["C11"] = (
+    "must-pass-through rule (propagated depth charge dominates every interpreter re-entry) + whole-program call-graph cycle rule with callback resolution + reviewed cost constants / clamp",
+    "Static rule check: every call into eval_impl/do_eval/eval_state from outside that chain is dominated (in its "
+    "function, or in the builder of the closure it sits in) by push_frame/incr_depth whose Err is propagated; the "
+    "charge functions call check_depth on every path and undo on failure; check_depth compares depth() (frames + "
+    "inherited depth) with the limit; the two weighted costs use the named constants, which are not below their "
+    "reviewed values, macro contexts inherit the caller's depth, set_recursion_limit clamps to MAX_RECURSION; and in "
+    "the whole-program call graph (CHA + closure + fn-pointer + generic/dyn callback resolution) the interpreter is "
+    "acyclic once the charged edges are removed and cannot reach the uncharged top-level entry.  This decides, for "
+    "all recursive program shapes, that recursion is counted against the limit; whether the native stack suffices "
+    "for the counted depth is a per-frame size question the quick tier does not decide.",
+    "DESIGN.md §3 C11",
+    "No analysed configuration enables stacker.  The reviewed constants (4, 10, 500) encode the measured stack margin; "
+    "lowering a cost or raising the cap is reported.")
+
 NOT_APPLICABLE = {
 }
 
